@@ -130,12 +130,14 @@ where
     // See "A bezier curve-based root-finder", Philip J Schneider, Graphics Gems
 
     // List of sections waiting to be processed
-    let mut sections    = vec![points];
+    const MAX_DEPTH: usize = 48;
+
+    let mut sections    = vec![(points, 0usize)];
     let mut roots       = smallvec![];
 
     loop {
         // Get the next section to process
-        let section = if let Some(section) = sections.pop() { section } else { return roots; };
+        let (section, depth) = if let Some(section) = sections.pop() { section } else { return roots; };
 
         // Find out how many times the polygon crosses the x
         let num_crossings = count_x_axis_crossings(&section);
@@ -152,10 +154,16 @@ where
             continue;
         }
 
+        if depth >= MAX_DEPTH {
+            // Multiple roots that cannot be separated at this precision: report the section as a single root
+            roots.push((section[0].x() + section[N-1].x()) * 0.5);
+            continue;
+        }
+
         // Subdivide the curve in the middle to search for more crossings
         let (left, right) = subdivide_n(0.5, section);
-        sections.push(right);
-        sections.push(left);
+        sections.push((right, depth+1));
+        sections.push((left, depth+1));
     }
 }
 
